@@ -221,11 +221,11 @@ func fmtErrorSourceLineWithParser(p *syntax.Parser, cursorIdx int, withCursorMar
 	endIdx := startIdx
 	// append EOF to source to avoid index exceed exception
 	sourceT := append(p.GetSource(), 0)
-	for sourceT[startIdx] == syntax.RuneCR || sourceT[startIdx] == syntax.RuneLF {
+	for startIdx > 0 && (sourceT[startIdx] == syntax.RuneCR || sourceT[startIdx] == syntax.RuneLF) {
 		startIdx -= 1
 	}
 	// find prev until meeting first CR/LF
-	for startIdx > 0 {
+	for startIdx >= 0 {
 		if sourceT[startIdx] == syntax.RuneCR || sourceT[startIdx] == syntax.RuneLF {
 			startIdx += 1
 			// skip indent chars
@@ -236,19 +236,30 @@ func fmtErrorSourceLineWithParser(p *syntax.Parser, cursorIdx int, withCursorMar
 		}
 		startIdx -= 1
 	}
-	// find next until meeting first CR/LF
-	for endIdx < len(sourceT) {
+	if startIdx < 0 {
+		startIdx = 0
+	}
+	// find next until meeting first CR/LF (the appended EOF mark is not part of the line)
+	for endIdx < len(sourceT)-1 {
 		if sourceT[endIdx] == syntax.RuneCR || sourceT[endIdx] == syntax.RuneLF {
 			break
 		}
 		endIdx += 1
 	}
 
+	// the cursor may sit inside the indentation or on a leading line break
+	if startIdx > endIdx {
+		startIdx = endIdx
+	}
 	// get relative cursor offset (notice one Chinese char counts for 2 unit offsets)
 	lineText := string(sourceT[startIdx:endIdx])
 	fmtLine := fmt.Sprintf("    %s", lineText)
 	if withCursorMark {
-		cursorText := fmt.Sprintf("\n    %s^", strings.Repeat(" ", calcCursorOffset(lineText, cursorIdx-startIdx)))
+		cursorOffset := calcCursorOffset(lineText, cursorIdx-startIdx)
+		if cursorOffset < 0 {
+			cursorOffset = 0
+		}
+		cursorText := fmt.Sprintf("\n    %s^", strings.Repeat(" ", cursorOffset))
 		fmtLine += cursorText
 	}
 
